@@ -31,12 +31,16 @@ def sh(cmd, cwd=None, env=None, timeout=3600):
 
 def import_from(src, prop):
     out = []
+    seeded = os.path.join(VERIF, 'seeded')
+    existing = [int(m.group(1)) for d in (os.listdir(seeded) if os.path.isdir(seeded) else [])
+                for m in [re.match(rf'{prop}_(\d+)$', d)] if m]
+    base = max(existing, default=0)
     for f in sorted(os.listdir(src)):
         m = re.match(r'change_(\d+)\.diff$', f)
         if not m:
             continue
         k = m.group(1)
-        d = os.path.join(VERIF, 'seeded', f'{prop}_{k}')
+        d = os.path.join(VERIF, 'seeded', f'{prop}_{base + int(k)}')
         os.makedirs(d, exist_ok=True)
         shutil.copy(os.path.join(src, f), os.path.join(d, 'patch.diff'))
         for a, b in ((f'demo_{k}.py', 'demo.py'), (f'notes_{k}.md', 'notes.md')):
